@@ -237,11 +237,37 @@ class ConcEngine(object):
         knobs = prog.get("knobs", {})
         mp = w.mp
         base_props = set(["C16"]) if mp else set()
+        liveness_only = bool(prog.get("liveness_only"))
+        if liveness_only:
+            # start state produced by INTERRUPTED calls (orphan references, markers, tmp files ...):
+            # the model cannot describe it, so only termination / nothing-left-locked are judged
+            with seam.activate(w.run, 0):
+                w.open_store()
+                mdl = w.model()
+                r = w.run
+                for op in prog.get("setup", []):
+                    plan = op.get("int")
+                    if plan:
+                        r.crash_at, r.crash_count, r.crashed = plan["index"], 0, False
+                        r.crash_kinds = seam.MUTATING
+                        r.crash_snapshot = None
+                    try:
+                        w.exec_op(op)
+                    except seam.SimCrash:
+                        pass
+                    r.crash_at = None
+                    if r.crashed:
+                        r.dead_tasks.clear()
+                        r.crashed = False
+                        r.all_dead = False
+                        res.flags.add("setup-crashed")
+                        w.open_store()
         with seam.activate(w.run, 0):
-            w.open_store()
-            mdl = w.model()
+            if not liveness_only:
+                w.open_store()
+                mdl = w.model()
             # sequential set-up (must agree with the model, else the scenario is discarded)
-            for i, op in enumerate(prog.get("setup", [])):
+            for i, op in enumerate([] if liveness_only else prog.get("setup", [])):
                 exp = mdl.apply(op)
                 out, extra = w.exec_op(op)
                 if not exp.matches(out):
@@ -250,7 +276,7 @@ class ConcEngine(object):
                                                      "expected": exp.describe()}, i))
                     return
             a0 = w.alpha()
-            if W.compare_alpha(a0, mdl):
+            if not liveness_only and W.compare_alpha(a0, mdl):
                 res.violations.append(Violation({"SETUP"}, "setup", "setup:alpha", {"diffs": W.compare_alpha(a0, mdl)[:4]}))
                 return
         w.run.recording = True
@@ -340,8 +366,8 @@ class ConcEngine(object):
                     res.violations.append(Violation(self.c08(), "liveness", "liveness:self-deadlock",
                                                     {"call": c.op, "extra": _jsonable(c.extra)}))
                     return
-        if fp is not None:
-            # after an injected fault only the liveness oracles apply (what a failed call may leave
+        if fp is not None or liveness_only:
+            # after an injected fault / from an interrupted start state only the liveness oracles apply (what a failed call may leave
             # behind is C13's subject, decided one call at a time by the FAULT engine)
             with seam.activate(w.run, 0):
                 v = self.followups(None, scenario)
